@@ -20,7 +20,7 @@ def inShutF : FPc → Bool
   | _ => false
 /-- the manager has raised the shutdown flag itself, or is past the point where it checks it -/
 def mFlagged : MPc → Bool
-  | .flagRel | .brkRel _
+  | .flagRel | .brkRel _ | .addAcqF _ | .addTStartF _
   | .kill _ | .killJoin _ | .jAcq1 | .jRelExit _ _ | .jRel1 _ | .jAliveAcq _ _ _ | .jAlive _ _ _ _ _
   | .jAliveRel _ _ _ _ | .jPut _ _ _ _ | .jPutTStart _ _ _ _ | .jSleep _ _ _ | .jShutAcq | .jShutRel | .jAcq2
   | .jJoin _ | .jRel2 | .done | .raised _ => true
@@ -46,6 +46,8 @@ theorem accU_inShutU (pc : UPc) (h : accU pc = true) : inShutU pc = true := by
   | zero => rfl
   | succ n ih => unfold mAddFuel; (repeat' split) <;> first | rfl | simp [*]
 @[simp] theorem inShutM_mAdd (s : St) : inShutM (mAdd s).mpc = false := by unfold mAdd; simp
+@[simp] theorem inShutM_mAddF (s : St) : inShutM (mAddF s).mpc = false := by
+  rcases mAddF_mpc s with ⟨i, _, h⟩ | ⟨_, h, _⟩ | ⟨_, h, _⟩ <;> rw [h] <;> rfl
 @[simp] theorem inShutM_mJoinStart (s : St) : inShutM (mJoinStart s).mpc = false := rfl
 @[simp] theorem inShutM_mKillNext (s : St) : inShutM (mKillNext s).mpc = false := by unfold mKillNext; split <;> rfl
 @[simp] theorem inShutM_mAfterItem (s : St) : inShutM (mAfterItem s).mpc = false := by
